@@ -188,10 +188,74 @@ def run_replace(crystal, rq, prev=None, want_obj=False):
         # inserted atoms sit on the lattice up to a bound proportional to the tolerance (jitter, lever arms)
         ev["post"] = project(new, R, residual_tol=1e-6 if jit == 0.0 else 2.0 * atol / s)
         ev["wf"] = ev["post"]["wf"]
+    ev["postu"], ev["wfu"], ev["und"], ev["nblocks"] = ev["post"], ev["wf"], [], -1
+    if res is not None and rec.calls and len(Krp["q"]) > 0 and ev["found"] and ev["exc"] == "none":
+        try:
+            und_view(ev, res[0], R, rec.calls[0][2], Ksp, Krp, 1e-6 if jit == 0.0 else 2.0 * atol / s)
+        except Exception as e:      # rotation-invariant view unavailable: such events stay unjudged, never alarm
+            ev["und"], ev["nblocks"], ev["und_msg"] = [], -1, "%s: %s" % (type(e).__name__, str(e)[:120])
     ev["pre"] = dict(Ks, wf="ok")
     if want_obj:
         return ev, (res[0] if res is not None else None)
     return ev
+
+
+def und_view(ev, new, R, ans, Ksp, Krp, residual_tol):
+    """Rotation-invariant view of the inserted atoms (Replace.tla, JudgeReplaceUnd): blocks of inserted rows, and for every
+    (match, block) the squared distances / signed volumes of matched positions ++ block atoms at their nearest images,
+    in lattice units, rounded.  Mechanical: no comparison with the patterns happens here."""
+    import copy
+    import itertools
+    idx, mpos, quats = ans
+    Kp = project(new, R, residual_tol=1e9)
+    code = {q: r + 1 for r, q in enumerate(Krp["q"])}
+    rows = [(j, code[q]) for j, q in enumerate(Kp["q"]) if q in code]
+    blocks = []
+    for j, r in rows:
+        if not blocks or r <= blocks[-1][-1][1]:
+            blocks.append([])
+        blocks[-1].append((j, r))
+    if len(blocks) * len(idx) > 144 or any([r for _, r in b] != [r for _, r in blocks[0]] for b in blocks):
+        return
+    cell = np.array(new.cell, dtype=float)
+    inv = np.linalg.inv(cell)
+    pos = np.array(new.positions, dtype=float)
+    s = R.scale
+    # every inserted atom is imaged next to the search-pattern atom it is closest to in the pattern (first such atom)
+    spp, rpp = np.array(Ksp["pos"], dtype=int).reshape(-1, 3), np.array(Krp["pos"], dtype=int).reshape(-1, 3)
+    anchors = {r + 1: int(np.argmin(((spp - rpp[r]) ** 2).sum(axis=1))) for r in range(len(rpp))}
+    und = []
+    for b, blk in enumerate(blocks):
+        fr = pos[[j for j, _ in blk]] @ inv
+        inside = "yes" if (fr.min() > -1e-9 and fr.max() < 1 + 1e-9) else "no"
+        for a in range(len(idx)):
+            mp = np.array(mpos[a], dtype=float).reshape(-1, 3)
+            x = pos[[j for j, _ in blk]]
+            anchor = mp[[anchors[r] for _, r in blk]]
+            x = x - np.rint((x - anchor) @ inv) @ cell
+            pts = np.vstack([mp, x]) / s
+            d = pts[:, None, :] - pts[None, :, :]
+            d2 = (d * d).sum(axis=2)
+            dev = float(np.abs(d2 - np.rint(d2)).max())
+            det = []
+            for q in itertools.combinations(range(len(pts)), 4):
+                v = float(np.linalg.det(np.array([pts[q[1]] - pts[q[0]], pts[q[2]] - pts[q[0]], pts[q[3]] - pts[q[0]]])))
+                det.append([q[0] + 1, q[1] + 1, q[2] + 1, q[3] + 1, int(round(v))])
+            if float(np.rint(d2).max()) > 10 ** 6:
+                continue        # far apart: not this match's block (keeps the numbers small)
+            und.append({"a": a + 1, "b": b + 1, "rp": [r for _, r in blk], "d2": np.rint(d2).astype(int).tolist(), "det": det,
+                        "res": "ok" if dev < 0.3 else "residual %.3g" % dev, "inside": inside})
+    ghost = copy.deepcopy(new)
+    gp = np.array(ghost.positions, dtype=float)
+    for blk in blocks:
+        for j, r in blk:
+            gp[j] = 0.0
+    ghost.positions = gp
+    Ku = project(ghost, R, residual_tol=residual_tol)
+    for b, blk in enumerate(blocks):
+        for j, r in blk:
+            Ku["pos"][j] = [1000 + b + 1, 0, r]
+    ev["postu"], ev["wfu"], ev["und"], ev["nblocks"] = Ku, Ku["wf"], und, len(blocks)
 
 
 def run_chain(crystal, rq, replicate=None):
@@ -283,6 +347,7 @@ def run_stubbed(req, vi, sd):
         ev["count"] = int(cnt)
         ev["post"] = project(new, R)
         ev["wf"] = ev["post"]["wf"]
+    ev["postu"], ev["wfu"], ev["und"], ev["nblocks"] = ev["post"], ev["wf"], [], -1
     return ev
 
 
